@@ -77,12 +77,18 @@ def _run_harness_chunk(args):
                 recs.append({"id": c.get("id"), "not_run": True})
                 continue
             try:
-                q = subprocess.run([HARNESS, mode], input=(json.dumps(c) + "\n").encode("utf-8", "replace"), capture_output=True,
-                                   env=env, timeout=CASE_TIMEOUT_S)
+                try:
+                    q = subprocess.run([HARNESS, mode], input=(json.dumps(c) + "\n").encode("utf-8", "replace"), capture_output=True,
+                                       env=env, timeout=CASE_TIMEOUT_S)
+                except subprocess.TimeoutExpired:
+                    # a loaded machine (other checks, builds) can starve one process for seconds: a case counts as "does not return" only
+                    # if it also exceeds a limit no scheduling hiccup explains
+                    q = subprocess.run([HARNESS, mode], input=(json.dumps(c) + "\n").encode("utf-8", "replace"), capture_output=True,
+                                       env=env, timeout=max(60.0, 12 * CASE_TIMEOUT_S))
             except subprocess.TimeoutExpired:
                 n_to += 1
                 recs.append({"id": c.get("id"), "abort": True, "timeout": True, "returncode": None,
-                             "stderr": "no result within %.0f s (the transform does not return on this input)" % CASE_TIMEOUT_S})
+                             "stderr": "no result within %.0f s, nor within %.0f s when run again alone (the transform does not return on this input)" % (CASE_TIMEOUT_S, max(60.0, 12 * CASE_TIMEOUT_S))})
                 continue
             if q.returncode != 0 or not q.stdout.strip():
                 recs.append({"id": c.get("id"), "abort": True, "returncode": q.returncode,
